@@ -236,6 +236,20 @@ def check_files(case_files, layout='one', reindex=True):
         index_object = LogicalFile.LogicalIndex(io.BytesIO(data))
         with index_object as idx:
             got = [[(pe.eflr.lr_type, observed_table(pe.eflr)) for pe in lf.eflrs] for lf in idx.logical_files]
+            # presenting a table (as the scan tools print it, rows sorted by name and in file order) is a query: the table read
+            # afterwards - by position, by label, by name - is the table read before
+            from TotalDepth.RP66V1.core import stringify
+            for lf in idx.logical_files:
+                for pe in lf.eflrs:
+                    for srt in (True, False):
+                        try:
+                            pe.eflr.table_as_strings(stringify.stringify_object_by_type, sort=srt)
+                        except Exception:  # noqa  (what the rendering does with a value is C18's business)
+                            pass
+            shown = [[(pe.eflr.lr_type, observed_table(pe.eflr)) for pe in lf.eflrs] for lf in idx.logical_files]
+            if shown != got:
+                return [({'kind': 'table_changed_by_rendering'}, 'after table_as_strings(sort=True / False) the tables read differently: %r before, %r after'
+                         % ([t for f in got for t in f if t not in [u for g in shown for u in g]][:1], [t for f in shown for t in f if t not in [u for g in got for u in g]][:1]))], ('render',)
         if reindex:
             # indexing again through the same object (enter, leave, enter) must give the same logical files
             with index_object as idx:
@@ -322,7 +336,7 @@ def object_comps(col, full):
                 if code is not None:
                     comp['code'] = code
                 if 'U' in sub:
-                    comp['units'] = b'm'
+                    comp['units'] = b'\xb5s/ft^2'      # two characters outside the units alphabet: the reader warns, the units are what was encoded
                 if 'V' in sub:
                     ecode = code if code is not None else e['code']
                     ecount = count if count is not None else e['count']
@@ -372,7 +386,7 @@ def gen_D(tier, code):
 def gen_big_counts(code):
     """Counts that need a two-byte UVARI (128, 130, 300; 127 is the last one-byte count): in the template, and overriding it in an object,
     each followed by another column so that a mis-read count shows."""
-    names = [(0, 0, b'OBJ0'), (1, 1, b'OBJ1')]
+    names = [(1, 1, b'OBJ1'), (0, 0, b'OBJ0')]      # not in name order: the file's order is the table's order
     k = 0
     for cnt in (127, 128, 130, 300):
         second = {'label': b'NEXT', 'code': 16, 'values': [7]}
@@ -387,7 +401,7 @@ def gen_big_counts(code):
 
 def gen_W(tier, ncols, vcode):
     cols_alpha = ['Av', 'A', 'I', 'If']      # If: an invariant attribute with every characteristic present (descriptor 0x5F)
-    names = [(0, 0, b'OBJ0'), (1, 1, b'OBJ1')]
+    names = [(1, 1, b'OBJ1'), (0, 0, b'OBJ0')]
     k = 0
     for word in itertools.product(cols_alpha, repeat=ncols):
         template = []
@@ -399,7 +413,7 @@ def gen_W(tier, ncols, vcode):
             elif w in ('I', 'If'):
                 col['inv'] = True
                 col['values'] = vals(code, 1, 1)
-                col['units'] = b'in'
+                col['units'] = b'a$#b'
                 if w == 'If':
                     col['count'] = 1
             template.append(col)
